@@ -176,6 +176,10 @@ enum InputSpec {
     ToolEnv { tool: Tool, tmo: u8 },
     CkCreate { ok: bool },
     CkRewindMissing,
+    /// rewind of a checkpoint that exists FOR THIS SESSION ID (checkpoints are per session and a session gets one
+    /// input, so the harness files the checkpoint in the workspace store itself, under the id of the session that
+    /// is about to get its input): `checkpoint_rewound`.  Not for router posts (their session id is not known before).
+    CkRewindOwn,
 }
 
 #[derive(Clone, Debug, PartialEq, Serialize, Deserialize)]
@@ -213,6 +217,65 @@ struct Case {
     /// delete the summary artifact, so that every later context compilation fails
     #[serde(default)]
     break_summaries: bool,
+    /// fault injection (hook `rip_kernel::verif::fail`): these continuity appends return Err for the whole case
+    #[serde(default)]
+    faults: Vec<Fault>,
+}
+
+/// a continuity append a run makes, failing (`let _ = continuities.append_…` in run_session drops the result)
+#[derive(Clone, Copy, Debug, PartialEq, Eq, PartialOrd, Ord, Serialize, Deserialize)]
+enum Fault {
+    Selection,
+    Compiled,
+    SideEffects,
+    Cursor,
+    RunEnded,
+}
+impl Fault {
+    fn point(self) -> &'static str {
+        match self {
+            Fault::Selection => "cont.append.selection_decided",
+            Fault::Compiled => "cont.append.context_compiled",
+            Fault::SideEffects => "cont.append.tool_side_effects",
+            Fault::Cursor => "cont.append.provider_cursor_updated",
+            Fault::RunEnded => "cont.append.run_ended",
+        }
+    }
+    /// head of the frame's `ck_code` in the model
+    fn code(self) -> u64 {
+        match self {
+            Fault::Selection => 22,
+            Fault::Compiled => 23,
+            Fault::SideEffects => 24,
+            Fault::Cursor => 25,
+            Fault::RunEnded => 26,
+        }
+    }
+    fn letter(self) -> char {
+        match self {
+            Fault::Selection => 'S',
+            Fault::Compiled => 'C',
+            Fault::SideEffects => 'E',
+            Fault::Cursor => 'U',
+            Fault::RunEnded => 'X',
+        }
+    }
+}
+/// installs the fail hook for one case, removes it when dropped
+struct FaultGuard;
+impl FaultGuard {
+    fn install(faults: &[Fault]) -> FaultGuard {
+        let names: BTreeSet<&'static str> = faults.iter().map(|f| f.point()).collect();
+        if !names.is_empty() {
+            rip_kernel::verif::set_fail_hook(Some(Arc::new(move |n: &'static str| names.contains(n))));
+        }
+        FaultGuard
+    }
+}
+impl Drop for FaultGuard {
+    fn drop(&mut self) {
+        rip_kernel::verif::set_fail_hook(None);
+    }
 }
 
 // ------------------------------------------------------------------ provider scripts
@@ -404,8 +467,17 @@ fn input_text(i: &InputSpec, n: usize) -> String {
             let files = if *ok { json!(["a.txt"]) } else { json!(["/nonexistent-c07/abs.txt"]) };
             json!({"checkpoint": {"action": "create", "label": "c07", "files": files}}).to_string()
         }
-        InputSpec::CkRewindMissing => json!({"checkpoint": {"action": "rewind", "id": "no-such-checkpoint"}}).to_string(),
+        InputSpec::CkRewindMissing | InputSpec::CkRewindOwn => json!({"checkpoint": {"action": "rewind", "id": "no-such-checkpoint"}}).to_string(),
     }
+}
+/// the input text for a session whose id is already known
+fn input_text_for(i: &InputSpec, n: usize, ws: &Path, sid: &str) -> Result<String, String> {
+    if let InputSpec::CkRewindOwn = i {
+        let w = rip_workspace::Workspace::new(ws).map_err(|e| format!("workspace: {e}"))?;
+        let ck = w.create_checkpoint(sid, "c07-own", &[PathBuf::from("a.txt")]).map_err(|e| format!("checkpoint set-up: {e}"))?;
+        return Ok(json!({"checkpoint": {"action": "rewind", "id": ck.id}}).to_string());
+    }
+    Ok(input_text(i, n))
 }
 
 // ------------------------------------------------------------------ log
@@ -584,8 +656,28 @@ fn thread_regex(s: &str) -> bool {
     b.get(i) == Some(&'X') && i + 1 == b.len()
 }
 
-/// (what, class) of every violation of the property text visible in the log
-fn oracle(log: &[Line]) -> Vec<(String, String)> {
+/// with failing appends: every frame whose append was made to fail may be missing, the order of the rest stands
+fn thread_regex_faulted(s: &str, faults: &[Fault]) -> bool {
+    let gone: Vec<char> = faults.iter().map(|f| f.letter()).collect();
+    if s.chars().any(|c| gone.contains(&c)) {
+        return false;
+    }
+    let k = s.chars().filter(|c| *c == 'E').count();
+    for sc in [false, true] {
+        for u in [false, true] {
+            let full = format!("P{}{}{}X", if sc { "SC" } else { "" }, "E".repeat(k), if u { "U" } else { "" });
+            let left: String = full.chars().filter(|c| !gone.contains(c)).collect();
+            if left == s {
+                return true;
+            }
+        }
+    }
+    false
+}
+
+/// (what, class) of every violation of the property text visible in the log; `faults` = continuity appends the
+/// harness made fail in this case (AppendOk does not hold for them: those frames must be ABSENT, the rest stands)
+fn oracle(log: &[Line], faults: &[Fault]) -> Vec<(String, String)> {
     let mut out = vec![];
     if log.iter().any(|l| l.ty == "UNPARSABLE") {
         out.push(("events.jsonl has an unparsable line".to_string(), "log-unparsable".to_string()));
@@ -643,11 +735,19 @@ fn oracle(log: &[Line]) -> Vec<(String, String)> {
             let mine: Vec<&&Line> = fr.iter().filter(|l| letter(l) != '?' && l.s("run_session_id") == run).collect();
             let word: String = mine.iter().map(|l| letter(l)).collect();
             let ends = word.chars().filter(|c| *c == 'X').count();
+            if !faults.is_empty() {
+                if !thread_regex_faulted(&word, faults) {
+                    out.push((format!("thread {tid}: run {run} thread frames {word} with failing appends {faults:?}: a frame whose append failed is there, or the order of the others is wrong"), "thread-order".to_string()));
+                }
+                if faults.contains(&Fault::RunEnded) {
+                    continue;
+                }
+            }
             if ends != 1 {
                 out.push((format!("thread {tid}: run {run} has {ends} run_ended frames (frames {word})"), "end-count".to_string()));
                 continue;
             }
-            if !thread_regex(&word) {
+            if faults.is_empty() && !thread_regex(&word) {
                 out.push((format!("thread {tid}: run {run} thread frames {word} do not match P(SC)?E*U?X"), "thread-order".to_string()));
             }
             let x = mine.iter().find(|l| l.ty == "continuity_run_ended").unwrap();
@@ -837,8 +937,10 @@ struct Exec {
 
 const WATCHDOG: Duration = Duration::from_secs(180);
 
-fn act_done(a: &Act, id: &Ids, log: &[Line]) -> bool {
+fn act_done(a: &Act, id: &Ids, log: &[Line], faults: &[Fault]) -> bool {
     match a {
+        // the append is attempted right after the snapshot (phase 1) and fails at once
+        Act::Post { .. } if faults.contains(&Fault::RunEnded) => true,
         Act::Post { .. } => match &id.sid {
             Some(s) => log.iter().any(|l| l.ty == "continuity_run_ended" && l.s("run_session_id") == *s),
             None => true,
@@ -857,7 +959,7 @@ static SEEN_MISSING_END: std::sync::atomic::AtomicBool = std::sync::atomic::Atom
 /// Phase 1: every started run_session task has passed `write_snapshot` (hook count; watchdog => "hang").
 /// Phase 2: the closing thread frames (run_ended right after the snapshot, job_ended) are in the log; a frame
 /// still missing after a generous grace period is left to the oracle (end-count), not reported as a hang.
-async fn wait_done(data: &Path, acts: &[Act], ids: &[Ids], before: (u64, usize), runs_started: u64) -> Option<String> {
+async fn wait_done(data: &Path, acts: &[Act], ids: &[Ids], before: (u64, usize), runs_started: u64, faults: &[Fault]) -> Option<String> {
     let (snaps_before, panics_before) = before;
     let t0 = Instant::now();
     loop {
@@ -879,7 +981,7 @@ async fn wait_done(data: &Path, acts: &[Act], ids: &[Ids], before: (u64, usize),
     let t1 = Instant::now();
     loop {
         let log = read_log(data);
-        if acts.iter().zip(ids).all(|(a, i)| act_done(a, i, &log)) {
+        if acts.iter().zip(ids).all(|(a, i)| act_done(a, i, &log, faults)) {
             return None;
         }
         let has_job = acts.iter().any(|a| matches!(a, Act::Job { .. }));
@@ -931,6 +1033,7 @@ async fn exec_case(c: &Case, root: &Path) -> Result<Exec, String> {
         }
     }
     let snaps_before = (SNAPS.load(Ordering::SeqCst), panics_seen());
+    let _faults = FaultGuard::install(&c.faults);
     let mut ids: Vec<Ids> = vec![];
     let mut runs_started = 0u64;
     let mut hang = None;
@@ -943,12 +1046,12 @@ async fn exec_case(c: &Case, root: &Path) -> Result<Exec, String> {
             let mut id = Ids::default();
             match a {
                 Act::Post { input, provider } => {
-                    let text = input_text(input, i);
+                    let handle = engine.create_session();
+                    let sid = handle.session_id.clone();
+                    let text = input_text_for(input, i, &ws, &sid)?;
                     let cfg = provider.as_ref().map(|p| engine_cfg(urls[i].as_ref().unwrap(), p));
                     // thread_post_message, by hand (server.rs:722-753)
                     if let Ok(mid) = store.append_message(&thread, "user".into(), "server".into(), text.clone()) {
-                        let handle = engine.create_session();
-                        let sid = handle.session_id.clone();
                         id.mid = Some(mid.clone());
                         if store.append_run_spawned(&thread, &mid, &sid, "user".into(), "server".into()).is_ok() {
                             id.sid = Some(sid);
@@ -963,7 +1066,8 @@ async fn exec_case(c: &Case, root: &Path) -> Result<Exec, String> {
                     let cfg = provider.as_ref().map(|p| engine_cfg(urls[i].as_ref().unwrap(), p));
                     let handle = engine.create_session();
                     id.sid = Some(handle.session_id.clone());
-                    engine.spawn_session(handle, input_text(input, i), None, cfg);
+                    let text = input_text_for(input, i, &ws, &handle.session_id)?;
+                    engine.spawn_session(handle, text, None, cfg);
                     runs_started += 1;
                     id.status = 202;
                 }
@@ -985,14 +1089,14 @@ async fn exec_case(c: &Case, root: &Path) -> Result<Exec, String> {
             }
             ids.push(id);
             if !c.parallel {
-                if let Some(h) = wait_done(&data, &c.acts[..ids.len()], &ids, snaps_before, runs_started).await {
+                if let Some(h) = wait_done(&data, &c.acts[..ids.len()], &ids, snaps_before, runs_started, &c.faults).await {
                     hang = Some(h);
                     break;
                 }
             }
         }
         if hang.is_none() {
-            hang = wait_done(&data, &c.acts[..ids.len()], &ids, snaps_before, runs_started).await;
+            hang = wait_done(&data, &c.acts[..ids.len()], &ids, snaps_before, runs_started, &c.faults).await;
         }
         drop(engine);
     } else {
@@ -1013,7 +1117,7 @@ async fn exec_case(c: &Case, root: &Path) -> Result<Exec, String> {
             let pre = Ids { sid: v.get("session_id").and_then(|x| x.as_str()).map(|s| s.to_string()), status: st, ..Default::default() };
             runs_started += 1;
             let pre_act = Act::Post { input: InputSpec::Prompt, provider: None };
-            if let Some(h) = wait_done(&data, std::slice::from_ref(&pre_act), std::slice::from_ref(&pre), snaps_before, runs_started).await {
+            if let Some(h) = wait_done(&data, std::slice::from_ref(&pre_act), std::slice::from_ref(&pre), snaps_before, runs_started, &c.faults).await {
                 hang = Some(h);
             }
             let (st2, _) = call_json(&app, req("POST", &format!("/threads/{thread}/compaction-checkpoint"), Some(json!({"summary_markdown": "c07 summary", "to_message_id": mid})))).await;
@@ -1029,6 +1133,9 @@ async fn exec_case(c: &Case, root: &Path) -> Result<Exec, String> {
             let mut id = Ids::default();
             match a {
                 Act::Post { input, provider } => {
+                    if *input == InputSpec::CkRewindOwn {
+                        return Err("unsupported case: CkRewindOwn on a router post".into());
+                    }
                     let mut body = json!({"content": input_text(input, i)});
                     if let Some(p) = provider {
                         body["openresponses"] = json!({"endpoint": urls[i].as_ref().unwrap(), "model": "scripted", "stateless_history": p.stateless});
@@ -1044,7 +1151,8 @@ async fn exec_case(c: &Case, root: &Path) -> Result<Exec, String> {
                 Act::Input { input, .. } => {
                     let (_, v) = call_json(&app, req("POST", "/sessions", None)).await;
                     let sid = v.get("session_id").and_then(|x| x.as_str()).unwrap_or("").to_string();
-                    let (st, _) = call_json(&app, req("POST", &format!("/sessions/{sid}/input"), Some(json!({"input": input_text(input, i)})))).await;
+                    let text = input_text_for(input, i, &ws, &sid)?;
+                    let (st, _) = call_json(&app, req("POST", &format!("/sessions/{sid}/input"), Some(json!({"input": text})))).await;
                     id.status = st;
                     id.sid = Some(sid);
                     if st == 202 {
@@ -1063,7 +1171,7 @@ async fn exec_case(c: &Case, root: &Path) -> Result<Exec, String> {
                     if *wait {
                         let mut ids2 = ids.clone();
                         ids2.push(id.clone());
-                        if let Some(h) = wait_done(&data, &c.acts[..ids2.len()], &ids2, snaps_before, runs_started).await {
+                        if let Some(h) = wait_done(&data, &c.acts[..ids2.len()], &ids2, snaps_before, runs_started, &c.faults).await {
                             hang = Some(h);
                         }
                     }
@@ -1107,14 +1215,14 @@ async fn exec_case(c: &Case, root: &Path) -> Result<Exec, String> {
             }
             ids.push(id);
             if !c.parallel {
-                if let Some(h) = wait_done(&data, &c.acts[..ids.len()], &ids, snaps_before, runs_started).await {
+                if let Some(h) = wait_done(&data, &c.acts[..ids.len()], &ids, snaps_before, runs_started, &c.faults).await {
                     hang = Some(h);
                     break;
                 }
             }
         }
         if hang.is_none() {
-            hang = wait_done(&data, &c.acts[..ids.len()], &ids, snaps_before, runs_started).await;
+            hang = wait_done(&data, &c.acts[..ids.len()], &ids, snaps_before, runs_started, &c.faults).await;
         }
         drop(app);
     }
@@ -1194,6 +1302,7 @@ fn input_term(i: &InputSpec, p: Option<&ProviderSpec>, preds: &[Pred], cal: &Cal
         InputSpec::ToolEnv { tool, tmo } => format!("(ITool {} {})", coq_bool(tool.lock()), tool_out_term(*tool, &tool_res(*tool, cal, *tmo == 2))),
         InputSpec::CkCreate { ok } => format!("(ICheckpoint {})", if *ok { "CkCreatedOk" } else { "CkFail" }),
         InputSpec::CkRewindMissing => "(ICheckpoint CkFail)".into(),
+        InputSpec::CkRewindOwn => "(ICheckpoint CkRewoundOk)".into(),
     }
 }
 fn cfg_term(p: Option<&ProviderSpec>) -> String {
@@ -1300,7 +1409,8 @@ fn case_term(c: &Case, ex: &Exec, cal: &Calib) -> Option<String> {
         acts.push(format!("({term})"));
         expects.push(coq_list_n(&flat));
     }
-    Some(format!("{{| k_acts := {}; k_expect := {}; k_races := {} |}}", coq_list(&acts, |s| s.clone()), coq_list(&expects, |s| s.clone()), coq_list(&races, |s| s.clone())))
+    let faults: Vec<u64> = c.faults.iter().map(|f| f.code()).collect();
+    Some(format!("{{| k_acts := {}; k_expect := {}; k_races := {}; k_faults := {} |}}", coq_list(&acts, |s| s.clone()), coq_list(&expects, |s| s.clone()), coq_list(&races, |s| s.clone()), coq_list_n(&faults)))
 }
 
 // ------------------------------------------------------------------ generator
@@ -1382,7 +1492,7 @@ fn body_sweep(at: u32, r: &mut Rng) -> Vec<Case> {
             .into_iter()
             .map(|body| Act::Post { input: InputSpec::Prompt, provider: Some(ProviderSpec { stateless: false, choice: Choice::Auto, closed_port: false, reqs: vec![Req::HttpBody { status: *r.pick(&ERR_STATUSES), body }] }) })
             .collect();
-        out.push(Case { engine: w % 2 == 0, parallel: false, acts, break_summaries: false });
+        out.push(Case { faults: vec![], engine: w % 2 == 0, parallel: false, acts, break_summaries: false });
     }
     out
 }
@@ -1465,6 +1575,7 @@ fn gen_input(r: &mut Rng) -> InputSpec {
             }
         }
         8 => InputSpec::CkCreate { ok: r.chance(2, 3) },
+        _ if r.chance(1, 2) => InputSpec::CkRewindOwn,
         _ => InputSpec::CkRewindMissing,
     }
 }
@@ -1473,7 +1584,7 @@ fn gen_case(r: &mut Rng, i: usize, caps: &[u32]) -> Case {
         // a summarizer job that fails: posts through the kernel stub (no tool writes artifacts), then the job
         let mut acts: Vec<Act> = (0..r.range(1, 3)).map(|_| Act::Post { input: InputSpec::Prompt, provider: None }).collect();
         acts.push(Act::Job { stride: 1, max_new: r.range(1, 3), fail: true });
-        return Case { engine: false, parallel: false, acts, break_summaries: false };
+        return Case { faults: vec![], engine: false, parallel: false, acts, break_summaries: false };
     }
     let engine = i % 3 == 2;
     if i % 25 == 11 {
@@ -1484,15 +1595,18 @@ fn gen_case(r: &mut Rng, i: usize, caps: &[u32]) -> Case {
         if r.chance(1, 2) {
             acts.push(Act::Post { input: InputSpec::Prompt, provider: None });
         }
-        return Case { engine, parallel: false, acts, break_summaries: false };
+        return Case { faults: vec![], engine, parallel: false, acts, break_summaries: false };
     }
     let nacts = *r.pick(&[1usize, 1, 1, 2, 2, 3]);
     let parallel = nacts > 1 && r.chance(2, 3);
     let mut acts = vec![];
     let mut default_used = false;
     for _ in 0..nacts {
-        let input = gen_input(r);
+        let mut input = gen_input(r);
         let linked = r.chance(3, 4);
+        if input == InputSpec::CkRewindOwn && linked && !engine {
+            input = InputSpec::CkRewindMissing;
+        }
         let want_provider = matches!(input, InputSpec::Prompt) && r.chance(5, 6);
         if linked {
             acts.push(Act::Post { provider: if want_provider { Some(gen_provider(r, engine, caps)) } else { None }, input });
@@ -1521,7 +1635,12 @@ fn gen_case(r: &mut Rng, i: usize, caps: &[u32]) -> Case {
     }
     // (the preamble post would consume the app-level default provider's first script)
     let break_summaries = !engine && !default_used && r.chance(1, 7);
-    Case { engine, parallel, acts, break_summaries }
+    // now and then some of the run's own thread appends fail (AppendOk does not hold)
+    const FAULTS: [Fault; 5] = [Fault::Selection, Fault::Compiled, Fault::SideEffects, Fault::Cursor, Fault::RunEnded];
+    let mut faults: Vec<Fault> = if r.chance(1, 7) { (0..r.range(1, 2)).map(|_| *r.pick(&FAULTS)).collect() } else { vec![] };
+    faults.sort();
+    faults.dedup();
+    Case { faults, engine, parallel, acts, break_summaries }
 }
 
 fn text_req(events: Vec<Sse>) -> Req {
@@ -1532,44 +1651,52 @@ fn corpus() -> Vec<Case> {
     let post = |reqs: Vec<Req>| Act::Post { input: InputSpec::Prompt, provider: Some(p(reqs, false, Choice::Auto)) };
     vec![
         // text only
-        Case { break_summaries: false, engine: false, parallel: false, acts: vec![post(vec![text_req(vec![Sse::Created { id: true }, Sse::Delta, Sse::Delta, Sse::Completed { id: true }])])] },
+        Case { faults: vec![], break_summaries: false, engine: false, parallel: false, acts: vec![post(vec![text_req(vec![Sse::Created { id: true }, Sse::Delta, Sse::Delta, Sse::Completed { id: true }])])] },
         // no provider at all (kernel stub)
-        Case { break_summaries: false, engine: false, parallel: false, acts: vec![Act::Post { input: InputSpec::Prompt, provider: None }] },
+        Case { faults: vec![], break_summaries: false, engine: false, parallel: false, acts: vec![Act::Post { input: InputSpec::Prompt, provider: None }] },
         // one tool round with a workspace-mutating tool, then text: selection, compiled, side effects, cursor
-        Case { break_summaries: false, engine: false, parallel: false, acts: vec![post(vec![text_req(vec![Sse::Created { id: true }, Sse::Call(Tool::WriteOk), Sse::Call(Tool::Ls)]), text_req(vec![Sse::Created { id: true }, Sse::Delta])])] },
+        Case { faults: vec![], break_summaries: false, engine: false, parallel: false, acts: vec![post(vec![text_req(vec![Sse::Created { id: true }, Sse::Call(Tool::WriteOk), Sse::Call(Tool::Ls)]), text_req(vec![Sse::Created { id: true }, Sse::Delta])])] },
         // tool round without a response id: provider_error
-        Case { break_summaries: false, engine: false, parallel: false, acts: vec![post(vec![text_req(vec![Sse::Created { id: false }, Sse::Call(Tool::BashEcho)])])] },
+        Case { faults: vec![], break_summaries: false, engine: false, parallel: false, acts: vec![post(vec![text_req(vec![Sse::Created { id: false }, Sse::Call(Tool::BashEcho)])])] },
         // every early exit of one request
-        Case { break_summaries: false, engine: false, parallel: false, acts: vec![post(vec![Req::Http(500)]), post(vec![Req::Empty]), post(vec![Req::Stream { events: vec![Sse::Created { id: true }, Sse::Delta], done: true, partial_tail: false, cuts: vec![], drop_at: Some(0) }])] },
-        Case { break_summaries: false, engine: false, parallel: false, acts: vec![post(vec![Req::Stream { events: vec![Sse::Created { id: true }, Sse::Delta, Sse::Delta], done: true, partial_tail: false, cuts: vec![500], drop_at: Some(150) }])] },
+        Case { faults: vec![], break_summaries: false, engine: false, parallel: false, acts: vec![post(vec![Req::Http(500)]), post(vec![Req::Empty]), post(vec![Req::Stream { events: vec![Sse::Created { id: true }, Sse::Delta], done: true, partial_tail: false, cuts: vec![], drop_at: Some(0) }])] },
+        Case { faults: vec![], break_summaries: false, engine: false, parallel: false, acts: vec![post(vec![Req::Stream { events: vec![Sse::Created { id: true }, Sse::Delta, Sse::Delta], done: true, partial_tail: false, cuts: vec![500], drop_at: Some(150) }])] },
         // envelopes, linked and not
-        Case { break_summaries: false, engine: false, parallel: true, acts: vec![Act::Post { input: InputSpec::ToolEnv { tool: Tool::WriteOk, tmo: 0 }, provider: None }, Act::Input { input: InputSpec::ToolEnv { tool: Tool::BashSleep, tmo: 2 }, provider: None }, Act::Post { input: InputSpec::CkCreate { ok: true }, provider: None }] },
+        Case { faults: vec![], break_summaries: false, engine: false, parallel: true, acts: vec![Act::Post { input: InputSpec::ToolEnv { tool: Tool::WriteOk, tmo: 0 }, provider: None }, Act::Input { input: InputSpec::ToolEnv { tool: Tool::BashSleep, tmo: 2 }, provider: None }, Act::Post { input: InputSpec::CkCreate { ok: true }, provider: None }] },
         // restricted / barred / invalid tool_choice (engine)
-        Case { break_summaries: false, engine: true, parallel: false, acts: vec![Act::Post { input: InputSpec::Prompt, provider: Some(p(vec![text_req(vec![Sse::Created { id: true }, Sse::Call(Tool::Ls), Sse::Call(Tool::BashEcho)]), text_req(vec![Sse::Delta])], false, Choice::OnlyLs)) }] },
-        Case { break_summaries: false, engine: true, parallel: false, acts: vec![Act::Post { input: InputSpec::Prompt, provider: Some(p(vec![text_req(vec![Sse::Delta])], false, Choice::Invalid)) }] },
+        Case { faults: vec![], break_summaries: false, engine: true, parallel: false, acts: vec![Act::Post { input: InputSpec::Prompt, provider: Some(p(vec![text_req(vec![Sse::Created { id: true }, Sse::Call(Tool::Ls), Sse::Call(Tool::BashEcho)]), text_req(vec![Sse::Delta])], false, Choice::OnlyLs)) }] },
+        Case { faults: vec![], break_summaries: false, engine: true, parallel: false, acts: vec![Act::Post { input: InputSpec::Prompt, provider: Some(p(vec![text_req(vec![Sse::Delta])], false, Choice::Invalid)) }] },
         // parallel runs on one thread + a job
-        Case { break_summaries: false, engine: false, parallel: true, acts: vec![post(vec![text_req(vec![Sse::Created { id: true }, Sse::Call(Tool::BashEcho)]), text_req(vec![Sse::Delta])]), post(vec![text_req(vec![Sse::Delta])]), Act::Post { input: InputSpec::Prompt, provider: None }, Act::Job { stride: 1, max_new: 2, fail: false }] },
+        Case { faults: vec![], break_summaries: false, engine: false, parallel: true, acts: vec![post(vec![text_req(vec![Sse::Created { id: true }, Sse::Call(Tool::BashEcho)]), text_req(vec![Sse::Delta])]), post(vec![text_req(vec![Sse::Delta])]), Act::Post { input: InputSpec::Prompt, provider: None }, Act::Job { stride: 1, max_new: 2, fail: false }] },
         // context compilation fails (summary artifact gone): the run ends with context_compile_failed, run_ended follows
-        Case { break_summaries: true, engine: false, parallel: false, acts: vec![post(vec![text_req(vec![Sse::Delta])]), Act::Post { input: InputSpec::Prompt, provider: None }, Act::Post { input: InputSpec::ToolEnv { tool: Tool::WriteOk, tmo: 0 }, provider: None }] },
+        Case { faults: vec![], break_summaries: true, engine: false, parallel: false, acts: vec![post(vec![text_req(vec![Sse::Delta])]), Act::Post { input: InputSpec::Prompt, provider: None }, Act::Post { input: InputSpec::ToolEnv { tool: Tool::WriteOk, tmo: 0 }, provider: None }] },
         // a job whose summarizer fails: job_ended(failed), once
-        Case { break_summaries: false, engine: false, parallel: false, acts: vec![Act::Post { input: InputSpec::Prompt, provider: None }, Act::Job { stride: 1, max_new: 2, fail: true }] },
+        Case { faults: vec![], break_summaries: false, engine: false, parallel: false, acts: vec![Act::Post { input: InputSpec::Prompt, provider: None }, Act::Job { stride: 1, max_new: 2, fail: true }] },
         // S6: two inputs on one session
-        Case { break_summaries: false, engine: false, parallel: false, acts: vec![Act::Input2 { first: InputSpec::Prompt, second: InputSpec::Prompt, wait: true }] },
-        Case { break_summaries: false, engine: false, parallel: false, acts: vec![Act::Input2 { first: InputSpec::ToolEnv { tool: Tool::BashEcho, tmo: 0 }, second: InputSpec::Prompt, wait: false }, Act::Post { input: InputSpec::Prompt, provider: None }] },
+        Case { faults: vec![], break_summaries: false, engine: false, parallel: false, acts: vec![Act::Input2 { first: InputSpec::Prompt, second: InputSpec::Prompt, wait: true }] },
+        Case { faults: vec![], break_summaries: false, engine: false, parallel: false, acts: vec![Act::Input2 { first: InputSpec::ToolEnv { tool: Tool::BashEcho, tmo: 0 }, second: InputSpec::Prompt, wait: false }, Act::Post { input: InputSpec::Prompt, provider: None }] },
+        // a session rewinds a checkpoint filed under its own id: checkpoint_rewound
+        Case { faults: vec![], break_summaries: false, engine: false, parallel: false, acts: vec![Act::Input { input: InputSpec::CkRewindOwn, provider: None }] },
+        Case { faults: vec![], break_summaries: false, engine: true, parallel: false, acts: vec![Act::Post { input: InputSpec::CkRewindOwn, provider: None }, Act::Input { input: InputSpec::CkRewindOwn, provider: None }] },
+        // AppendOk is necessary (c07_end_dropped_when_append_fails_refuted, replayed): run_ended cannot be appended
+        Case { faults: vec![Fault::RunEnded], break_summaries: false, engine: false, parallel: false, acts: vec![Act::Post { input: InputSpec::Prompt, provider: None }] },
+        // every thread append of a full run fails in turn: the session stream and the other thread frames are untouched
+        Case { faults: vec![Fault::Selection, Fault::SideEffects], break_summaries: false, engine: false, parallel: false, acts: vec![post(vec![text_req(vec![Sse::Created { id: true }, Sse::Call(Tool::WriteOk)]), text_req(vec![Sse::Created { id: true }, Sse::Delta])])] },
+        Case { faults: vec![Fault::Compiled, Fault::Cursor, Fault::RunEnded], break_summaries: false, engine: false, parallel: false, acts: vec![post(vec![text_req(vec![Sse::Created { id: true }, Sse::Call(Tool::WriteOk)]), text_req(vec![Sse::Created { id: true }, Sse::Delta])]), Act::Post { input: InputSpec::ToolEnv { tool: Tool::BashEcho, tmo: 0 }, provider: None }] },
         // concurrent inputs to one session, forced through the guard point: one run
-        Case { break_summaries: false, engine: true, parallel: false, acts: vec![Act::InputRace { rounds: 2, n: 2, input: InputSpec::Prompt, stepped: true }] },
-        Case { break_summaries: false, engine: false, parallel: false, acts: vec![Act::InputRace { rounds: 2, n: 2, input: InputSpec::Prompt, stepped: true }] },
+        Case { faults: vec![], break_summaries: false, engine: true, parallel: false, acts: vec![Act::InputRace { rounds: 2, n: 2, input: InputSpec::Prompt, stepped: true }] },
+        Case { faults: vec![], break_summaries: false, engine: false, parallel: false, acts: vec![Act::InputRace { rounds: 2, n: 2, input: InputSpec::Prompt, stepped: true }] },
         // a long localized error page: 'x' then 2-byte characters, a character straddles offset 2048
-        Case { break_summaries: false, engine: false, parallel: false, acts: vec![post(vec![Req::HttpBody { status: 502, body: BodySpec { prefix: 1, cp: 0xE9, count: 4000, tail: 0 } }])] },
+        Case { faults: vec![], break_summaries: false, engine: false, parallel: false, acts: vec![post(vec![Req::HttpBody { status: 502, body: BodySpec { prefix: 1, cp: 0xE9, count: 4000, tail: 0 } }])] },
         // tool-call limit: 3 rounds of 12 calls
-        Case { break_summaries: false, engine: false, parallel: false, acts: vec![post((0..4).map(|_| text_req(std::iter::once(Sse::Created { id: true }).chain((0..12).map(|_| Sse::Call(Tool::Ls))).collect())).collect())] },
+        Case { faults: vec![], break_summaries: false, engine: false, parallel: false, acts: vec![post((0..4).map(|_| text_req(std::iter::once(Sse::Created { id: true }).chain((0..12).map(|_| Sse::Call(Tool::Ls))).collect())).collect())] },
     ]
 }
 
 fn calibrate(rt: &tokio::runtime::Runtime) -> Calib {
     let sc = Scratch::new("c07cal");
     let acts: Vec<Act> = CALL_TOOLS.iter().map(|t| Act::Input { input: InputSpec::ToolEnv { tool: *t, tmo: 0 }, provider: None }).collect();
-    let c = Case { engine: true, parallel: false, acts, break_summaries: false };
+    let c = Case { faults: vec![], engine: true, parallel: false, acts, break_summaries: false };
     let ex = rt.block_on(exec_case(&c, sc.path())).expect("calibration store");
     let mut cal = Calib::new();
     for (t, id) in CALL_TOOLS.iter().zip(&ex.ids) {
@@ -1586,6 +1713,9 @@ fn label(c: &Case) -> Vec<String> {
     if c.break_summaries {
         v.push("compile=fails".into());
     }
+    for f in &c.faults {
+        v.push(format!("append-fails={f:?}"));
+    }
     for a in &c.acts {
         match a {
             Act::Post { input, provider } | Act::Input { input, provider } => {
@@ -1597,6 +1727,7 @@ fn label(c: &Case) -> Vec<String> {
                     InputSpec::ToolEnv { tool, .. } => format!("input=tool-{tool:?}"),
                     InputSpec::CkCreate { ok } => format!("input=checkpoint-create-{ok}"),
                     InputSpec::CkRewindMissing => "input=checkpoint-rewind-missing".to_string(),
+                    InputSpec::CkRewindOwn => "input=checkpoint-rewind-own".to_string(),
                 });
                 if let Some(p) = provider {
                     v.push(format!("choice={:?}", p.choice));
@@ -1721,15 +1852,15 @@ fn main() {
         // concurrent inputs: raced (many rounds) and stepped, through the engine and through the router
         for engine in [true, false] {
             let rounds = if a.thorough() { 400 } else { 60 };
-            cases.push(Case { engine, parallel: false, break_summaries: false, acts: vec![Act::InputRace { rounds, n: 2, input: InputSpec::Prompt, stepped: false }] });
-            cases.push(Case { engine, parallel: false, break_summaries: false, acts: vec![Act::InputRace { rounds: rounds / 3, n: 4, input: InputSpec::Prompt, stepped: false }] });
-            cases.push(Case { engine, parallel: false, break_summaries: false, acts: vec![Act::InputRace { rounds: 3, n: 3, input: InputSpec::ToolEnv { tool: Tool::BashEcho, tmo: 0 }, stepped: true }] });
+            cases.push(Case { faults: vec![], engine, parallel: false, break_summaries: false, acts: vec![Act::InputRace { rounds, n: 2, input: InputSpec::Prompt, stepped: false }] });
+            cases.push(Case { faults: vec![], engine, parallel: false, break_summaries: false, acts: vec![Act::InputRace { rounds: rounds / 3, n: 4, input: InputSpec::Prompt, stepped: false }] });
+            cases.push(Case { faults: vec![], engine, parallel: false, break_summaries: false, acts: vec![Act::InputRace { rounds: 3, n: 3, input: InputSpec::ToolEnv { tool: Tool::BashEcho, tmo: 0 }, stepped: true }] });
         }
         // the read tool's own cut, at every offset of a file of 2-/3-/4-byte characters (quick: every 5th)
         let ks: Vec<u8> = (0..=78u8).filter(|k| a.thorough() || (*k as u64 + a.seed) % 5 == 0).collect();
         for chunk in ks.chunks(4) {
             let acts = chunk.iter().map(|k| Act::Input { input: InputSpec::ToolEnv { tool: Tool::ReadCut(*k), tmo: 0 }, provider: None }).collect();
-            cases.push(Case { engine: true, parallel: false, break_summaries: false, acts });
+            cases.push(Case { faults: vec![], engine: true, parallel: false, break_summaries: false, acts });
         }
         // single-fault sweep: the connection drops at every event boundary (-1, 0, +1) and at every 9th byte of
         // the first and of the second response of a base conversation (quick: 2 bases, thorough: 20)
@@ -1763,7 +1894,7 @@ fn main() {
                     let mk = |events: &Vec<Sse>, drop_at: Option<u64>| Req::Stream { events: events.clone(), done: true, partial_tail: false, cuts: if k % 2 == 0 { vec![333, 666] } else { vec![] }, drop_at };
                     let reqs = if which == 0 { vec![mk(&ev0, Some(k)), mk(&ev1, None)] } else { vec![mk(&ev0, None), mk(&ev1, Some(k))] };
                     let p = ProviderSpec { stateless: b % 3 == 0, choice: Choice::Auto, closed_port: false, reqs };
-                    cases.push(Case { engine: false, parallel: false, break_summaries: false, acts: vec![Act::Post { input: InputSpec::Prompt, provider: Some(p) }] });
+                    cases.push(Case { faults: vec![], engine: false, parallel: false, break_summaries: false, acts: vec![Act::Post { input: InputSpec::Prompt, provider: Some(p) }] });
                 }
             }
         }
@@ -1812,7 +1943,7 @@ fn main() {
                 break;
             }
         }
-        let viol = oracle(&ex.log);
+        let viol = oracle(&ex.log, &c.faults);
         if let Some((what, class)) = viol.first() {
             bad = true;
             res.oracle_violations.push(OracleViolation { case_id: i as i64, what: format!("{what} (+{} more)", viol.len() - 1), class: class.clone(), replay: cj.clone() });
